@@ -4,12 +4,11 @@ import json, os
 HERE = os.path.dirname(os.path.abspath(__file__))
 props = {json.loads(l)['id']: json.loads(l) for l in open(os.path.join(HERE, 'properties.jsonl'))}
 
-CHECKS = {
- 'C19': dict(category='proof', design='§4 C19',
-   technique='Lean 4 theorems over an executable model (total preorder, operator agreement, Range algebra) + differential correspondence against mesonlib.Version/Range',
-   text='35 kernel-checked theorems state the whole property over the model for every token tuple / string / Range field value (induction over token lists, no bounds); the model is tied to /repo by running model and implementation on exhaustive pairs of <=2-component versions, random versions/junk, all operator spellings, check lists and range pairs on every run.',
-   note='Trusted: Lean kernel (axioms propext, Classical.choice, Quot.sound only), hand-written model validated differentially (not proved) on ASCII + inert non-ASCII, CPython primitive comparisons, digit runs < 4300 chars.'),
-}
+CHECKS = {}
+D = os.path.join(HERE, 'manifest.d')
+for f in sorted(os.listdir(D)):
+    if f.endswith('.json'):
+        CHECKS[f[:-5]] = json.load(open(os.path.join(D, f)))
 NOT_YET = {}
 
 def main():
@@ -22,7 +21,7 @@ def main():
             'evidence_file': f'evidence/{pid}.json',
             'replay_cmd_template': f'./check {pid} --replay {{path}}',
             'engine': 'lean-model+correspondence',
-            'level_claimed': {'category': c['category'], 'text': c['text'], 'design_ref': c['design']},
+            'level_claimed': {'category': c['category'], 'text': c['text'], 'design_ref': c.get('design_ref', '')},
             'level_note': c['note'],
             'technique': c['technique'],
         })
@@ -32,7 +31,7 @@ def main():
             na.append({'property_id': pid, 'reason': NOT_YET.get(pid, 'not claimed yet: model/proof/correspondence for this property is still under construction (see DESIGN.md §8); no check is registered until it passes on the unchanged tree')})
     m = {
         'version': 1,
-        'setup_cmd': 'cd /verif/lean && lake build',
+        'setup_cmd': './setup.sh',
         'hooks': {
             'guard': 'MESON_VERIF',
             'enable': 'no source hooks: all observation is from outside (in-process calls with PYTHONPATH=/repo, fake ninja on PATH, sitecustomize on PYTHONPATH)',
